@@ -14,7 +14,8 @@ CONSTANTS Layouts,    \* layout numbers in use
 LayoutTable == << << <<1>> >>, << <<2>> >>, << <<2>>, <<3>> >>, << <<2, 4>> >>, << <<3, 5>>, <<6, 1>> >>, << <<4>>, <<4>> >> >>
 \* pointings: <<phi, theta, pa>> as indices into AngleTable
 PointingTable == << <<1, 1, 1>>, <<2, 5, 1>>, <<5, 2, 6>>, <<3, 8, 2>>, <<7, 5, 5>>, <<6, 10, 9>>, <<4, 7, 8>>,
-                    <<5, 5, 5>>, <<9, 6, 3>>, <<10, 8, 7>>, <<8, 3, 4>>, <<2, 9, 10>> >>
+                    <<5, 5, 5>>, <<9, 6, 3>>, <<10, 8, 7>>, <<8, 3, 4>>, <<2, 9, 10>>,
+                    <<1, 11, 1>>, <<2, 11, 3>>, <<5, 11, 1>>, <<4, 12, 2>>, <<3, 13, 1>> >>
 
 VARIABLES phase, layout, samples, k, rotated
 vars == <<phase, layout, samples, k, rotated>>
